@@ -129,6 +129,14 @@ def check_shapes(chk, it):
                 ok_order = ok_order and start_calls == ['f3'] and body.rindex('f3') > max([body.rindex(c) for c in init_calls] or [0])
             else:
                 ok_order = ok_order and not start_calls
+            # every initialiser and the start function act on the instance being set up (child in NewChild, i in Instantiate)
+            recv = 'i' if entry == 'modInstantiate' else 'child'
+            firsts = re.findall(r'\b(modInit\w+|f\d+|mod_\w+|env__\w+)\s*\(\s*(\w+)', body)
+            wrong = [(c_, a_) for c_, a_ in firsts if a_ != recv]
+            chk.expect(not wrong, 'R06.5', '%s-receiver[%s]' % (entry, label),
+                       '%s calls %r: every initialiser and the start function must be applied to %s, the instance being created - otherwise '
+                       'another instance is modified and the new one stays uninitialised' % (entry, wrong, recv),
+                       'wasmCWrite%sFunction:receiver' % ('Instantiate' if entry == 'modInstantiate' else 'NewChild'))
             chk.expect(ok_order, 'R06.1', '%s-order[%s]' % (entry, label),
                        '%s performs %r; the specification order is imports, memories(+data), tables(+elements), globals, then the start '
                        'function exactly once (start function present: %s)' % (entry, calls, sh['start']),
